@@ -423,6 +423,10 @@ def run(ck):
     states = [s + (None,) * (9 - len(s)) for s in states]
     states.append(('file/allds:utmp_is_a_fifo_nobody_writes_to', cfg['file/allds'], 0, utmp_fifo, None, None, None, None, None, 'utmp'))
     states.append(('file/allds:utmp_leased_by_another_process', cfg['file/allds'], 0, utmp_leased, None, None, None, None, None, 'utmp'))
+    # ... a directory (open succeeds, every read fails with EISDIR); a file that ends in the middle of a record; an empty file
+    states.append(('file/allds:utmp_is_a_directory', cfg['file/allds'], 0, lambda env: os.mkdir(os.path.join(env.w, 'utmp')), None, None, None, None, None, 'utmp'))
+    states.append(('file/allds:utmp_ends_inside_a_record', cfg['file/allds'], 0, lambda env: open(os.path.join(env.w, 'utmp'), 'wb').write(b'\0' * (384 + 100)), None, None, None, None, None, 'utmp'))
+    states.append(('file/allds:utmp_is_empty', cfg['file/allds'], 0, lambda env: open(os.path.join(env.w, 'utmp'), 'wb').close(), None, None, None, None, None, 'utmp'))
     states = [s + (None,) * (10 - len(s)) for s in states]
     st_res = pmap(lambda s: one_run(sx, v['h_one'], wdir(), s[1], [], uid=s[2], prep=s[3], std_state=s[4], msglen=s[5], fsize=s[6], ctty=s[7], pending=s[8], utmp=s[9]), states)
     for s, rep in zip(states, st_res):
